@@ -332,6 +332,111 @@ def target_kind_case(ctx, client, root_s, root_t, idx, am_root, transport="pipe"
                     pass
 
 
+PATH_FORMS = ("absolute", "relative with cwd", "relative without cwd", "./x with cwd", "nested d/x with cwd")
+CWD_CELLS = [(f, o) for f in PATH_FORMS for o in ("utime", "chown", "chmod", "truncate")]
+
+
+def cwd_case(ctx, client, root_s, root_t, idx, am_root, transport="pipe"):
+    """By-path cells x path form. Three same-named files exist on both trees: <root>/N, <root>/S/N and <root>/S/d/N.
+    The operation (and a stat read-back) is addressed in one of five path forms, some after sftp.chdir('/S'); the os
+    call is applied to the file that form denotes on the twin tree; afterwards ALL three files must equal their twins,
+    so acting on the same-named decoy is seen as well as not acting on the target."""
+    rng = ctx.rng
+    form, opk = CWD_CELLS[(idx // 8 + ctx.shard * 3) % len(CWD_CELLS)]
+    name, sub = "c%d" % idx, "S%d" % idx
+    rels = {"root": name, "sub": sub + "/" + name, "nested": sub + "/d/" + name}
+    size = rng.choice([10, 100, 5000, 40000, rng.randint(1, 3000)])
+    t0 = (rng.randrange(1, 1 << 31), rng.randrange(1, 1 << 31))
+    blobs = {k: bytes([i + 1]) + rng.randbytes(size + i) for i, k in enumerate(rels)}
+    for root in (root_s, root_t):
+        os.makedirs(os.path.join(root, sub, "d"))
+        for k, rel in rels.items():
+            p = os.path.join(root, rel)
+            with open(p, "wb") as f:
+                f.write(blobs[k])
+            os.chmod(p, 0o644)
+            os.utime(p, t0)
+    if form == "absolute":
+        cwd, given, target = rng.choice([None, "/" + sub]), "/" + rels["sub"], "sub"
+    elif form == "relative with cwd":
+        cwd, given, target = "/" + sub, name, "sub"
+    elif form == "relative without cwd":
+        cwd, given, target = None, name, "root"
+    elif form == "./x with cwd":
+        cwd, given, target = "/" + sub, "./" + name, "sub"
+    else:
+        cwd, given, target = "/" + sub, "d/" + name, "nested"
+    op = gen_op_of(rng, opk, len(blobs[target]), am_root)
+    desc = dict(kind="file", by="path", path_form=form, cwd=cwd, path_given=given, denotes=rels[target], ops=[op],
+                transport=transport)
+    ctx.case(("cwd", form, op, size, transport), sample=desc if idx % 89 == 6 else None)
+    try:
+        client.chdir(cwd)
+        os_exc = sftp_exc = None
+        try:
+            apply_os(op, os.path.join(root_t, rels[target]))
+        except OSError as e:
+            os_exc = e
+        try:
+            apply_sftp(op, client, False, given)
+        except (IOError, OSError) as e:
+            sftp_exc = e
+        ctx.count("sftp_attr_calls")
+        ctx.count("cwd %s | %s" % (form, opk))
+        back = None
+        try:
+            back = client.stat(given)
+        except (IOError, OSError):
+            pass
+        snaps = {k: (snap(os.path.join(root_s, rel)), snap(os.path.join(root_t, rel))) for k, rel in rels.items()}
+        wit = dict(case=desc, op=op, os_exc=repr(os_exc), sftp_exc=repr(sftp_exc),
+                   files={k: dict(served=v[0], twin=v[1]) for k, v in snaps.items()})
+        bad = None
+        for k, (sv, tw) in snaps.items():
+            fields = ["mode", "uid", "gid", "size"] + ([] if (k == target and opk == "truncate") else ["atime", "mtime"])
+            ctx.count("cwd_file_stat_comparisons")
+            for f in fields:
+                if sv.get(f) != tw.get(f):
+                    bad = (k, "st_" + f)
+                    break
+            if bad is None:
+                cs, ct = content(os.path.join(root_s, rels[k])), content(os.path.join(root_t, rels[k]))
+                if cs != ct:
+                    bad = (k, "bytes")
+            if bad:
+                break
+        if bad:
+            which = "the addressed file" if bad[0] == target else "a same-named file elsewhere (%s)" % (
+                {"root": "server root", "sub": "the cwd", "nested": "below the cwd"}[bad[0]])
+            ctx.violation("%s by %s path: %s differs from the twin tree" % (opk, form, which),
+                          "after %s(%r) with cwd %r, %s of %s differs from the twin tree where os.%s was applied to %s"
+                          % (opk, given, cwd, bad[1], rels[bad[0]], opk, rels[target]), wit)
+            return
+        ctx.count("cwd_decoys_untouched", 2)
+        if back is not None:
+            tw = snaps[target][1]
+            ctx.count("cwd_stat_readbacks_compared")
+            got = dict(size=back.st_size, mode=back.st_mode, uid=back.st_uid, gid=back.st_gid, mtime=back.st_mtime)
+            want = dict(size=tw["size"], mode=tw["mode"], uid=tw["uid"], gid=tw["gid"], mtime=tw["mtime"] // 10 ** 9)
+            if opk == "truncate":
+                got.pop("mtime"), want.pop("mtime")
+            if got != want:
+                ctx.violation("stat by %s path reports another file than the one the path denotes" % form,
+                              "sftp.stat(%r) with cwd %r returned %r, os.stat of %s on the twin tree gives %r"
+                              % (given, cwd, got, rels[target], want), wit)
+    finally:
+        try:
+            client.chdir(None)
+        except Exception:
+            pass
+        for root in (root_s, root_t):
+            shutil.rmtree(os.path.join(root, sub), ignore_errors=True)
+            try:
+                os.remove(os.path.join(root, name))
+            except OSError:
+                pass
+
+
 BUFSIZES = [-1, 1, 64, 32768]
 
 
@@ -469,6 +574,8 @@ def run_pipe(ctx, n, am_root):
                     buffered_handle_case(ctx, bench.client, root_s, root_t, done, am_root)
                 elif done % 4 == 1:
                     target_kind_case(ctx, bench.client, root_s, root_t, done, am_root)
+                elif done % 8 == 6:
+                    cwd_case(ctx, bench.client, root_s, root_t, done, am_root)
                 else:
                     one_case(ctx, bench.client, root_s, root_t, done, am_root)
                 done += 1
@@ -503,6 +610,8 @@ def run_ssh(ctx, n, am_root):
                 buffered_handle_case(ctx, sftp, root_s, root_t, 100000 + i, am_root, transport="ssh")
             elif i % 4 == 1:
                 target_kind_case(ctx, sftp, root_s, root_t, 100000 + i, am_root, transport="ssh")
+            elif i % 8 == 6:
+                cwd_case(ctx, sftp, root_s, root_t, 100000 + i, am_root, transport="ssh")
             else:
                 one_case(ctx, sftp, root_s, root_t, 100000 + i, am_root, transport="ssh")
             ctx.count("ssh_cases")
@@ -526,6 +635,10 @@ def run(ctx):
     for kind, opk, by in CELLS:
         ctx.require("cell %s | %s | %s" % (kind, opk, by), ctx.pick(20, 400))
     ctx.require("symlink_lstat_comparisons", ctx.pick(250, 5000))
+    for form, opk in CWD_CELLS:
+        ctx.require("cwd %s | %s" % (form, opk), ctx.pick(12, 300))
+    ctx.require("cwd_file_stat_comparisons", ctx.pick(1000, 20000))
+    ctx.require("cwd_stat_readbacks_compared", ctx.pick(300, 8000))
     ctx.require("buffered_handle_final_comparisons", ctx.pick(500, 8000))
     ctx.require("buffered_handle_truncate_with_unflushed_writes", ctx.pick(60, 800))
     ctx.require("buffered_handle_ops_with_readahead", ctx.pick(20, 300))
